@@ -171,6 +171,17 @@ __stop_handler__:
     {
         //Принят символ окончания пакета, но crc не пройден.
         sts = GSTUFF_CRC_ERROR;
+        if (ctx.GSTUFF_START == ctx.GSTUFF_STOP)
+        {
+            // Когда стартовый и стоповый символы совпадают, символ, не
+            // закрывший пакет, может открывать следующий. Иначе после
+            // одного лишнего разделителя приёмник навсегда остаётся в
+            // противофазе: открывающий символ каждого пакета закрывает
+            // пустой пакет, а закрывающий - открывает.
+            reset();
+            state = 1;
+            return sts;
+        }
         goto __finish__;
     }
 
